@@ -40,7 +40,7 @@ TLTimeout == Is("LTimeout") /\ LTimeout
 TLClose == Is("LClose") /\ OldServerExits
 TNew == Is("NewServerStarts") /\ NewServerStarts
 \* ---- session manager
-TMIgnore == Is("MIgnore") /\ MOnHR(E.s) /\ Head(s2c[E.s]) = E.a /\ mstate = "hot" /\ mepoch # E.a
+TMIgnore == Is("MIgnore") /\ MOnHR(E.s) /\ Head(s2c[E.s]) = E.a
             /\ UNCHANGED <<mstate, mepoch, cur, reserve, nextId>>
 TMRepeat == Is("MRepeat") /\ MOnHR(E.s) /\ Head(s2c[E.s]) = E.a /\ UNCHANGED <<cur, reserve, nextId>> /\ mepoch' = E.a
 TMConnFail == Is("MConnFail") /\ MOnHR(E.s) /\ Head(s2c[E.s]) = E.a /\ nextId' = nextId /\ Connect = "none" /\ mepoch' = E.a
